@@ -86,6 +86,12 @@ def variants(case):
 
 def run_case(case):
     prog = case["prog"]
+    if known.active("three-same-signal-sources") and any(lang.same_type_fanin(p_) for p_ in (prog,)):
+        # open finding F-three-same: such a program is wired wrongly, and differently in every layout
+        return {"discard": "excluded:F-three-same", "counters": {"excluded_by:F-three-same": 1}}
+    if known.active("ir-fold-floor-div") and lang.ir_floor_div_shape(prog):
+        # open finding F-irdiv: a signal-typed constant divided by a constant of the other sign is floored by the IR optimiser
+        return {"discard": "excluded:F-irdiv", "counters": {"excluded_by:F-irdiv": 1}}
     names = lang.unconsumed_outputs(prog)
     init = {}
     for n, d in lang.input_decls(prog).items():
